@@ -71,3 +71,27 @@ PROPS["C20"] = dict(
     assumptions=LIB_ASSUMPTIONS + ["nested JSON-like attribute values are treated as immutable by deepcopy"],
     not_covered=["RDB/cached/gRPC getters (ORM/protobuf object construction)", "concurrent mutation during deepcopy"],
 )
+
+PROPS["C02"] = dict(
+    modules=["contracts.tell"],
+    claim="_check_values_are_feasible is total (never raises) and returns None exactly when the value(s) are "
+          "float-convertible, NaN-free and one per objective, for every Python value incl. str/None/huge ints; "
+          "_tell_with_warning: on every exit, normal or exceptional, past argument validation "
+          "set_trial_state_values was called exactly once with a finished state, COMPLETE iff feasible, FAIL "
+          "carries no values, stored values are the float conversions; a finished trial is never altered. "
+          "All obligations discharged by z3 for all inputs.",
+    note="storage behind the BaseStorage interface contract (assumed; proved for in-memory); unknown hooks may "
+         "raise anything; n_jobs pool and async KeyboardInterrupt not covered",
+    assumptions=LIB_ASSUMPTIONS + [
+        "assumed interface contract of BaseStorage (contracts/storage_model.py): compare-and-set semantics of "
+        "set_trial_state_values, get_trial returns the stored state (proved for InMemoryStorage under C01)",
+        "unknown callables (objective, sampler hooks, callbacks) may return any value or raise any Exception but "
+        "change trial states only through the storage API",
+        "float(str)/math.isnan follow the per-type table of pyvc/lib.py (numeric-literal strings convert; "
+        "math.isnan rejects non-real arguments with TypeError; |int| >= 2**1024-2**970 overflows)",
+        "comprehension element expressions are evaluated without exception paths",
+    ],
+    not_covered=["n_jobs>1 thread pool (each future runs the sequential loop with n_trials=1)",
+                 "asynchronous KeyboardInterrupt raised inside _tell_with_warning",
+                 "Study.ask failing inside sampler.before_trial after the trial was created"],
+)
